@@ -537,12 +537,21 @@ pub enum VWalEnd {
 
 /// Read every record of one segment file with the real `Reader`.
 pub fn verif_wal_read_segment(path: &Path, segment_id: u64) -> Result<(Vec<Vec<u8>>, VWalEnd)> {
+	let (recs, end) = verif_wal_read_segment_offsets(path, segment_id)?;
+	Ok((recs.into_iter().map(|r| r.0).collect(), end))
+}
+
+/// As `verif_wal_read_segment`, with the file offset just past each record as the reader reports it.
+pub fn verif_wal_read_segment_offsets(
+	path: &Path,
+	segment_id: u64,
+) -> Result<(Vec<(Vec<u8>, u64)>, VWalEnd)> {
 	let file = std::fs::File::open(path)?;
 	let mut reader = Reader::with_options(file, None, segment_id);
 	let mut out = Vec::new();
 	loop {
 		match reader.read() {
-			Ok((rec, _off)) => out.push(rec.to_vec()),
+			Ok((rec, off)) => out.push((rec.to_vec(), off)),
 			Err(crate::wal::Error::IO(e)) if e.kind() == std::io::ErrorKind::UnexpectedEof => {
 				return Ok((out, VWalEnd::Eof));
 			}
